@@ -14,9 +14,11 @@ import (
 	"pgregory.net/rapid"
 
 	"verifharness/hx"
+	"verifharness/observe"
+	"verifharness/wire"
 )
 
-func TestMain(m *testing.M) { hx.Main(m) }
+func TestMain(m *testing.M) { wire.Init(false); hx.Main(m) }
 
 // ---------------------------------------------------------------------------
 // generated tables
@@ -281,7 +283,16 @@ func checkLookup(t *rapid.T, matcher string) {
 	picker := rapid.SampledFrom([]string{"rr", "rnd"}).Draw(t, "picker")
 	cache := route.NewGlobCache(rapid.SampledFrom([]int{1, 2, 5, 1000}).Draw(t, "cachesize"))
 	nreq := rapid.IntRange(1, 8).Draw(t, "nreq")
+	pokeAt := -1
+	if rapid.IntRange(0, 2).Draw(t, "admin-looks-at-the-table") == 0 {
+		pokeAt = rapid.IntRange(0, nreq-1).Draw(t, "pokeat")
+	}
 	for i := 0; i < nreq; i++ {
+		if i == pokeAt {
+			// somebody opens the admin UI / API: reading the table must not change routing
+			hx.EvalN(observe.Poke(tbl))
+			hx.Class("admin-endpoints-read-the-table-before-a-lookup")
+		}
 		rq := genRequest(t, rts)
 		want, levels := expected(rts, rq, matcher, globDisabled)
 		got := tbl.Lookup(mkReq(rq), "", route.Picker[picker], route.Matcher[matcher], cache, globDisabled)
